@@ -105,8 +105,9 @@ def predicate(case, i, tb, stale_candidates):
             elif decode(x)[0] == 0 and x != 0:
                 if not ids_fit(G, 0): continue
                 if (ou, og) != (to_ext(G, 0), to_ext(G, 0)):
-                    bad.append(('%s of pseudo directory %d: client got %d/%d, internal owner 0/0 under the global mapping %s is %d' % (what, x, ou, og, G, to_ext(G, 0)),
-                                dict(kind='pseudo-untranslated', op=what)))
+                    sig = dict(kind='pseudo-untranslated', op=what)
+                    if st.get('mode') in ('a', 'y'): sig['entry'] = 'async'
+                    bad.append(('%s%s of pseudo directory %d: client got %d/%d, internal owner 0/0 under the global mapping %s is %d' % ('async ' if 'entry' in sig else '', what, x, ou, og, G, to_ext(G, 0)), sig))
     return bad
 
 # ------------------------------------------------------------------ scenarios
@@ -143,6 +144,21 @@ def setattr_block(g, nodeid, M):
             a = mk_ans(attr={'ino': 3, 'uid': i, 'gid': min(i + max(r, 1) - 1, U32 - 1), 'tag': 1})
             g.request('setattr', nodeid, auid=ids[k], agid=ids[(k + 1) % len(ids)], size=valid, uid=ids[(k + 2) % len(ids)], gid=ids[(k + 3) % len(ids)], ans=a)
 
+def async_ids_block(g, tb, targets, M):
+    """each async operation on each target with caller ids / owner ids at the edges of mapping M (both directions)"""
+    i, e, r = M if M is not None else (0, 1000, 1000)
+    ext = [e, min(e + r - 1, U32 - 1), max(e - 1, 0), min(e + r, U32 - 1)]
+    inn = [i, min(i + r - 1, U32 - 1), max(i - 1, 0), min(i + r, U32 - 1)]
+    k = 0
+    for x in targets:
+        for op in tb.async_ops:
+            if g.c.dead: return
+            k += 1
+            ent = {'ino': 21, 'stino': 21, 'uid': inn[k % 4], 'gid': inn[(k + 1) % 4], 'tag': 4}
+            g.request(op, x, mode='ay'[k % 2], name=('norm', 3), uid=ext[k % 4], gid=ext[(k + 2) % 4], auid=ext[(k + 1) % 4], agid=ext[(k + 3) % 4],
+                      size=[FATTR_UID, FATTR_GID, FATTR_UID | FATTR_GID][k % 3] if op == 'setattr' else 4096, offset=0,
+                      ans=mk_ans(ent=ent, attr={'ino': 9, 'uid': inn[(k + 2) % 4], 'gid': inn[(k + 3) % 4], 'tag': 2}, tag=7))
+
 def sc_sweep(sess, rng, tb, **over):
     """global / per-mount / no mapping, overlapping and disjoint ranges; every operation on a mount with its own mapping,
     on one without, on the pseudo fs and across mount points"""
@@ -157,8 +173,15 @@ def sc_sweep(sess, rng, tb, **over):
         if o_['status'] == 'ok':
             sweep_ops(g, (o_['vals'][0] << 56) | 1, tb, g.maps_in_play)
             if not os.environ.get('VFS_NO_DET'): setattr_block(g, (o_['vals'][0] << 56) | 1, M_)
+            if not os.environ.get('VFS_NO_ASYNC'): async_ids_block(g, tb, [(o_['vals'][0] << 56) | 1, (o_['vals'][0] << 56) | 33], M_)
     sweep_ops(g, ROOT_INO, tb, g.maps_in_play)
     sweep_ops(g, 3, tb, g.maps_in_play)
+    if not os.environ.get('VFS_NO_ASYNC'):
+        # async entry points on pseudo inodes, a vacant slot and an inode of an unmounted file system
+        st3, o3 = g.mount(path=mk_path(rng, [('N', 9)], noise=False), map=m1, ans=okmount(rng))
+        g.umount(mk_path(rng, [('N', 9)], noise=False))
+        stale = [(o3['vals'][0] << 56) | 1] if o3['status'] == 'ok' else []
+        async_ids_block(g, tb, [ROOT_INO, 2, 3, (77 << 56) | 1] + stale, gmap_of(c.cfg))
     if not c.dead: c07.probe_mount_paths(g, c, [])       # lookups / readdirplus / getattr across the mount points
     return c
 
@@ -169,6 +192,7 @@ def sc_rootmount(sess, rng, tb):
     g.mount(path=mk_path(rng, [], noise=False), map=m1, ans=dict(okmount(rng, 1), uid=pick_id(rng, g.maps_in_play), gid=pick_id(rng, g.maps_in_play)))
     sweep_ops(g, ROOT_INO, tb, g.maps_in_play)
     if not c.dead and not os.environ.get('VFS_NO_DET'): setattr_block(g, ROOT_INO, m1 if m1 else gmap_of(c.cfg))
+    if not c.dead and not os.environ.get('VFS_NO_ASYNC'): async_ids_block(g, tb, [ROOT_INO], m1 if m1 else gmap_of(c.cfg))
     for _ in range(10):
         if c.dead: break
         g.random_step()
@@ -270,7 +294,7 @@ def run_check(tier, seed):
     if not okm:
         es = coq_error_site(outm)
         broken.append({'kind': 'proof', 'theorem_or_lemma': es[2] if es else None, 'site': list(es[:2]) if es else None, 'message': es[3] if es else outm[-1500:]})
-    ok, out, bindir = cargo_build(['vfs'], features=['persist'])     # same feature set as C19: the three checks share the binary
+    ok, out, bindir = cargo_build(['vfs'], features=['persist', 'async-io'])     # same feature set as C19: the three checks share the binary
     if not ok:
         broken.append({'kind': 'harness-build', 'log': out[-3000:]})
         return finish(ev, PROP, findings, broken)
